@@ -120,6 +120,19 @@ def resolve_syntatic_sugar(a: ast.AST) -> ast.AST:
                         f"Argument {name} not found in dataclass {a.func.value}"
                         f" - {ast.unparse(node)}."
                     )
+                if name in sig_arg_names[: len(a.args)]:
+                    assert isinstance(a.func, ast.Constant)
+                    raise ValueError(
+                        f"Argument {name} given twice for dataclass {a.func.value}"
+                        f" - {ast.unparse(node)}."
+                    )
+
+            if any(isinstance(v, ast.Starred) for v in a.args):
+                assert isinstance(a.func, ast.Constant)
+                raise ValueError(
+                    f"Can not tell which fields of dataclass {a.func.value} a `*` argument"
+                    f" fills - {ast.unparse(node)}."
+                )
 
             return ast.Dict(
                 keys=arg_names,  # type: ignore
